@@ -76,7 +76,7 @@ type c17cfg struct {
 	scripts  []pscript
 	inflight []string
 	to       int
-	slowOld  bool // the deployed target answers its probes slower than the probe interval
+	slowOld  bool   // the deployed target answers its probes slower than the probe interval
 	flapOld  string // "down" | "up": the deployed target's probe result changes its state at the very tick at which the command starts
 }
 
@@ -193,10 +193,10 @@ func c17Scenario(c c17cfg) *Scenario {
 		return a
 	}
 	type sent struct {
-		kind string
-		at   time.Duration
-		dur  time.Duration // -1 never, -2 upgrade
-		id   string
+		kind      string
+		at        time.Duration
+		dur       time.Duration // -1 never, -2 upgrade
+		id        string
 		onRollout bool
 	}
 	var sents []sent
